@@ -16,6 +16,7 @@
 -/
 import CatVerif.Proofs.Hold
 import CatVerif.Proofs.Log
+import CatVerif.Proofs.Setters
 namespace Cat
 open St
 
@@ -87,5 +88,11 @@ theorem C14_all_kinds_hold : Gen.process_write_loop 4 = [.enableHold] ∧ Gen.pr
 /-- non-vacuity: a held state with a pending OK release satisfies the hypotheses of `C14_release_once` -/
 example : let s : St := { (default : St) with state := .hold, holdFlag := true, holdExitStatus := 1 }
     s.state = .hold ∧ s.holdExitStatus ≠ 0 ∧ (s.holdFlag = true ↔ s.state = .hold) := by decide
+
+/-- entering the hold: the model's `enableHoldState` is the assignment list of `enable_hold_state`
+in the source (translator item T7), and leaving a line through `reset_state` likewise -/
+theorem C14_hold_setters_generated (D : Desc) (s : St) :
+    enableHoldState s = Gen.enable_hold_state D s ∧ resetState s = Gen.reset_state D s :=
+  ⟨enableHoldState_generated D s, resetState_generated D s⟩
 
 end Cat
